@@ -28,8 +28,11 @@ class FakeRequest(dict):
 
 
 class World(Sim):
-    def __init__(self, **kw):
+    def __init__(self, guards=(), **kw):
         super().__init__(**kw)
+        self.guards = set(guards)      # known-finding signatures excluded by construction (ops that would trigger them are skipped)
+        self.excluded = 0
+        self.flags = []                # known-finding trigger conditions that occurred (unguarded runs): used to attribute failures
         self.batches = []     # dict(id, user, bp, token, updates=[...])
         self.updates = []     # dict(batch(idx), batch_id, update_id, start_job_id, start_group_id, groups, jobs, sent_groups, sent_jobs, committed)
         self.attempts = []    # dict(batch_id, job_id, attempt_id, instance)
@@ -146,7 +149,7 @@ class World(Sim):
                         elif existing_jobs:
                             parents.add(('abs', existing_jobs[abs(p) % len(existing_jobs)]))
                     u['jobs'].append(dict(g=gref, parents=sorted(parents), ar=bool(j.get('ar', False)), cpu=CPU[j.get('cpu', 2) % len(CPU)],
-                                          pool=j.get('pool', 0) % 2))
+                                          pool=j.get('pool', 0) % 3))
                 self.updates.append(u)
         return r
 
@@ -158,9 +161,12 @@ class World(Sim):
 
     def _job_spec(self, u, k):
         j = u['jobs'][k]
+        if j['pool'] == 2:
+            resources = {'machine_type': 'n1-standard-2'}      # job-private instance collection
+        else:
+            resources = {'cpu': j['cpu'], 'memory': 'standard' if j['pool'] == 0 else 'highmem'}
         spec = {'job_id': k + 1, 'process': {'type': 'docker', 'command': ['true'], 'image': 'ubuntu'},
-                'resources': {'cpu': j['cpu'], 'memory': 'standard' if j['pool'] == 0 else 'highmem'},
-                'always_run': j['ar']}
+                'resources': resources, 'always_run': j['ar']}
         kind, v = j['g']
         spec['in_update_job_group_id' if kind == 'in' else 'absolute_job_group_id'] = v
         ins = [v for kd, v in j['parents'] if kd == 'in']
@@ -201,6 +207,12 @@ class World(Sim):
             hi = min(hi, max(u['sent_jobs'], 1))
         if lo >= hi:
             return None
+        if u['update_id'] == 1 and not u['committed'] and any(x['batch'] is u['batch'] and x['committed'] for x in self.updates):
+            # known finding: Ready jobs of a still-uncommitted first update in a batch that a later update already set running
+            if 'uncommitted-update1-job-scheduled' in self.guards:
+                self.excluded += 1
+                return None
+            self.flags.append('uncommitted-update1-job-scheduled')
         specs = [self._job_spec(u, k) for k in range(lo, hi)]
         r = await self._guard(self.m.fe._create_jobs(self.userdata(u['batch']['user']), specs, u['batch_id'], u['update_id'], self.app))
         if r['ok'] and not resend:
@@ -212,6 +224,13 @@ class World(Sim):
         u = self._pick(self.updates, update_i)
         if u is None:
             return None
+        if u['update_id'] == 1 and not u['committed'] and u['sent_jobs'] and \
+                self.q('SELECT 1 AS x FROM job_groups_cancelled WHERE id = %s', (u['batch_id'],)):
+            # known finding: committing the first update after one of its groups was cancelled counts cancelled jobs as ready
+            if 'commit-update1-after-cancel-miscounts' in self.guards:
+                self.excluded += 1
+                return None
+            self.flags.append('commit-update1-after-cancel-miscounts')
         r = await self._guard(self.m.fe._commit_update(self.app, u['batch_id'], u['update_id'], u['batch']['user'], self.db))
         if r['ok']:
             u['committed'] = True
@@ -308,18 +327,33 @@ WHERE {where} ORDER BY jobs.batch_id, jobs.job_id''', args)
     async def op_schedule(self, job_i, inst_i, states=('Ready',)):
         """direct driver.job.schedule_job on some job (any state if states=None) and an active instance"""
         rows = self.job_rows()
+        # caller precondition of schedule_job: the scheduler only selects Ready jobs of job groups whose state is 'running'
+        # (PoolScheduler.user_runnable_jobs); a racing duplicate call (states=None) concerns a job that was selected that way
+        # earlier, i.e. a job of a committed update
+        running_groups = {(g['batch_id'], g['job_group_id']) for g in self.q("SELECT batch_id, job_group_id FROM job_groups WHERE state = 'running'")}
+        committed = {(u['batch_id'], u['update_id']) for u in self.q('SELECT batch_id, update_id FROM batch_updates WHERE committed')}
         if states is not None:
-            rows = [r for r in rows if r['state'] in states]
+            rows = [r for r in rows if r['state'] in states and (r['batch_id'], r['job_group_id']) in running_groups]
+        else:
+            rows = [r for r in rows if (r['batch_id'], r['update_id']) in committed]
         row = self._pick(rows, job_i)
-        act = [n for n in self.inst_list if self.instances[n].state == 'active']
+        if row is None:
+            return None
+        # the pool scheduler places a job only on an active instance of the job's own pool
+        act = [n for n in self.inst_list if self.instances[n].state == 'active' and self.instances[n].inst_coll.name == row['inst_coll']
+               and self.instances[n].inst_coll is not self.jpim]
         name = self._pick(act, inst_i)
-        if row is None or name is None:
+        if name is None:
             return None
         inst = self.instances[name]
         rec = dict(row)
         rec['attempt_id'] = self.fresh_token(6)
         before = len(self.client.calls)
+        # exactly what PoolScheduler.schedule_loop_body does around schedule_job (schedule_with_error_handling)
+        inst.adjust_free_cores_in_memory(-rec['cores_mcpu'])
         r = await self._guard(self.m.dj.schedule_job(self.app, rec, inst))
+        if not r.get('ok') and inst.state == 'active':
+            inst.adjust_free_cores_in_memory(rec['cores_mcpu'])
         self.attempts.append(dict(batch_id=rec['batch_id'], job_id=rec['job_id'], attempt_id=rec['attempt_id'], instance=name))
         r.update(job=(rec['batch_id'], rec['job_id']), attempt_id=rec['attempt_id'], instance=name, always_run=bool(row['always_run']),
                  state_before=row['state'], posted=len(self.client.calls) > before)
@@ -334,12 +368,19 @@ WHERE {where} ORDER BY jobs.batch_id, jobs.job_id''', args)
             out.append({'name': names[k % len(names)], 'quantity': 1 + q % 5})
         return out
 
-    async def op_creating(self, job_i, inst_i, resources=None):
-        rows = self.job_rows()
+    async def op_creating(self, job_i, inst_i=0, resources=None):
+        """JobPrivateInstanceManager.create_instances_loop_body for one job: new pending job-private instance, then the real
+        mark_job_creating (caller precondition: a Ready job of the job-private collection in a running group)."""
+        running_groups = {(g['batch_id'], g['job_group_id']) for g in self.q("SELECT batch_id, job_group_id FROM job_groups WHERE state = 'running'")}
+        rows = [r for r in self.job_rows() if r['state'] == 'Ready' and r['inst_coll'] == self.jpim.name and
+                (r['batch_id'], r['job_group_id']) in running_groups]
         row = self._pick(rows, job_i)
-        name = self._pick(self.inst_list, inst_i)
-        if row is None or name is None:
+        if row is None:
             return None
+        r0 = await self.op_instance(len(self.pools), False, cores=2)
+        if not r0.get('ok'):
+            return r0
+        name = self.inst_list[-1]
         inst = self.instances[name]
         att = self.fresh_token(6)
         r = await self._guard(self.m.dj.mark_job_creating(self.app, row['batch_id'], row['job_id'], att, inst, self.now_ms(),
@@ -349,9 +390,31 @@ WHERE {where} ORDER BY jobs.batch_id, jobs.job_id''', args)
                  always_run=bool(row['always_run']))
         return r
 
+    async def op_jp_schedule(self, att_i):
+        """JobPrivateInstanceManager.schedule_jobs_loop_body for one record: a Creating job whose instance became active."""
+        cands = []
+        for a in self.attempts:
+            inst = self.instances.get(a['instance'])
+            if inst is None or inst.inst_coll is not self.jpim or inst.state != 'active':
+                continue
+            row = self.job_rows('jobs.batch_id = %s AND jobs.job_id = %s', (a['batch_id'], a['job_id']))
+            if row and row[0]['state'] == 'Creating' and row[0]['attempt_id'] == a['attempt_id']:
+                cands.append((a, row[0], inst))
+        c = self._pick(cands, att_i)
+        if c is None:
+            return None
+        a, row, inst = c
+        rec = dict(row)
+        rec['attempt_id'] = a['attempt_id']
+        r = await self._guard(self.m.dj.schedule_job(self.app, rec, inst))
+        r.update(job=(rec['batch_id'], rec['job_id']), attempt_id=rec['attempt_id'], instance=a['instance'], always_run=bool(row['always_run']),
+                 state_before='Creating')
+        return r
+
     async def op_started(self, att_i, dt=0, resources=None, fresh=False):
         """worker reports job started for an existing attempt (or, with fresh=True, for a brand-new attempt id on a job)"""
-        a = self._pick([x for x in self.attempts if x['instance'] in self.instances], att_i)
+        # worker endpoints are @active_instances_only: reports are only accepted from instances the driver holds as active
+        a = self._pick([x for x in self.attempts if x['instance'] in self.instances and self.instances[x['instance']].state == 'active'], att_i)
         if a is None:
             return None
         inst = self.instances[a['instance']]
@@ -365,7 +428,8 @@ WHERE {where} ORDER BY jobs.batch_id, jobs.job_id''', args)
         return r
 
     async def op_complete(self, att_i, state=0, start_dt=None, end_dt=0, resources=None, marked_started=False, dup=1):
-        a = self._pick([x for x in self.attempts if x['instance'] in self.instances], att_i)
+        # worker endpoints are @active_instances_only: reports are only accepted from instances the driver holds as active
+        a = self._pick([x for x in self.attempts if x['instance'] in self.instances and self.instances[x['instance']].state == 'active'], att_i)
         if a is None:
             return None
         inst = self.instances[a['instance']]
@@ -384,7 +448,7 @@ WHERE {where} ORDER BY jobs.batch_id, jobs.job_id''', args)
         return r
 
     async def op_billing(self, inst_i, subset=0, dt=0):
-        name = self._pick(self.inst_list, inst_i)
+        name = self._pick([n for n in self.inst_list if self.instances[n].state == 'active'], inst_i)
         if name is None:
             return None
         inst = self.instances[name]
@@ -396,7 +460,8 @@ WHERE {where} ORDER BY jobs.batch_id, jobs.job_id''', args)
         return await self._guard(self.m.dm.billing_update_1(FakeRequest(self.app, body), inst))
 
     async def op_unschedule(self, att_i):
-        a = self._pick([x for x in self.attempts if x['instance'] in self.instances], att_i)
+        # callers of unschedule_job (cancel-running loop, orphaned-attempt loop) only pass attempts on ACTIVE instances
+        a = self._pick([x for x in self.attempts if x['instance'] in self.instances and self.instances[x['instance']].state == 'active'], att_i)
         if a is None:
             return None
         rec = dict(batch_id=a['batch_id'], job_id=a['job_id'], attempt_id=a['attempt_id'], instance_name=a['instance'])
